@@ -11,7 +11,7 @@ THEOREMS = ['WV.C02.pr_zero', 'WV.C02.pr_any_extension', 'WV.C02.pr_padded', 'WV
             'WV.C02J.level_pr', 'WV.C02J.pyramid_pr', 'WV.C02J.compat_wavedec', 'WV.C02J.DWT1D_roundtrip',
             'WV.C02K.level2d_pr', 'WV.C02K.unpad_topleft', 'WV.C02K.pyramid2d_pr', 'WV.C02K.DWT2D_roundtrip',
             'WV.C02P.level2d_pr_per', 'WV.C02P.pyramid2d_pr_per', 'WV.C02P.DWT2D_roundtrip_per', 'WV.C01P.DWTForward_per_eq_wavedec2', 'WV.C10P.DWTInverse_per_eq_waverec2',
-            'WV.C02Q.pyramid_pr_per', 'WV.C02Q.DWT1D_roundtrip_per']
+            'WV.C02Q.pyramid_pr_per', 'WV.C02Q.DWT1D_roundtrip_per', 'WV.C10Z.module_glue_gen']
 KF = 'C02-periodization-short'
 OPS = ['afb1d', 'sfb1d', 'DWT1DForward', 'DWT1DInverse', 'DWTForward', 'DWTInverse']
 
